@@ -357,7 +357,7 @@ pub fn check(s: &'static dyn Proto, c: &Case, st: &mut Stats, _k: &KnownFindings
 
 pub const BUDGET: Budget = Budget {
     quick: (8, 5, 3),
-    thorough: (40, 20, 10),
+    thorough: (160, 80, 40),
     shrink: 6,
 };
 
